@@ -1266,8 +1266,8 @@ theorem commentGo_data (t : Tokenizer) (dash : Nat) (h : Ok t) (h3 : 3 ≤ t.raw
     zd
     have a1 := readByte_adv h
     have a2 := readByte_adv a1.ok
-    have := a1.mono
-    have := a2.mono
+    have := readByte_succ herr
+    have := readByte_succ herr2
     have s := setDataEndBack_spec t.readByte.1.readByte.1 htmlCommentBangEndLen (by simp [htmlCommentBangEndLen]; omega)
     refine ⟨by simp, ?_⟩
     omega
@@ -1404,6 +1404,46 @@ theorem readMarkupDeclaration_data (t : Tokenizer) (h : Ok t) (h2 : 2 ≤ t.rawE
   unfold readMarkupDeclaration
   have h0 : Adv t { t with dataS := t.rawE } := (Adv.refl h).congr (by crfl)
   exact markupGo_data _ h0.ok h2 rfl
+
+/-! ### the raw-text readers leave the data span alone -/
+
+theorem rawEndTagLoop_data (t : Tokenizer) (cs : List Nat) :
+    (rawEndTagLoop t cs).1.dataS = t.dataS ∧ (rawEndTagLoop t cs).1.dataE = t.dataE := by
+  induction cs generalizing t with
+  | nil => simp [rawEndTagLoop]
+  | cons c cs ih =>
+    simp only [rawEndTagLoop]
+    (repeat' split) <;> simp [ih]
+
+theorem dblEscLoop_data (t : Tokenizer) (cs : List (Nat × Nat)) :
+    (dblEscLoop t cs).1.dataS = t.dataS ∧ (dblEscLoop t cs).1.dataE = t.dataE := by
+  induction cs generalizing t with
+  | nil => simp [dblEscLoop]
+  | cons c cs ih =>
+    obtain ⟨lo, up⟩ := c
+    simp only [dblEscLoop]
+    (repeat' split) <;> simp [ih]
+
+theorem readRawEndTag_data (t : Tokenizer) :
+    (readRawEndTag t).1.dataS = t.dataS ∧ (readRawEndTag t).1.dataE = t.dataE := by
+  unfold readRawEndTag
+  simp only
+  (repeat' split) <;> simp [rawEndTagLoop_data]
+
+@[simp] theorem addRawE_dataS (t : Tokenizer) (k : Nat) : (t.addRawE k).dataS = t.dataS := rfl
+@[simp] theorem addRawE_dataE (t : Tokenizer) (k : Nat) : (t.addRawE k).dataE = t.dataE := rfl
+
+theorem scriptGo_data (st : SS) (t : Tokenizer) :
+    (scriptGo st t).dataS = t.dataS ∧ (scriptGo st t).dataE = t.dataE := by
+  fun_induction scriptGo st t <;> simp_all +zetaDelta [readRawEndTag_data, dblEscLoop_data]
+
+theorem rawTextGo_data (t : Tokenizer) :
+    (rawTextGo t).dataS = t.dataS ∧ (rawTextGo t).dataE = t.dataE := by
+  fun_induction rawTextGo t <;> simp_all +zetaDelta [readRawEndTag_data]
+
+theorem readToEnd_data (t : Tokenizer) :
+    (readToEnd t).dataS = t.dataS ∧ (readToEnd t).dataE = t.dataE := by
+  fun_induction readToEnd t <;> simp_all +zetaDelta
 
 end Tokenizer
 end Rio.Html
